@@ -38,6 +38,12 @@ def schedules(total, tier, rng, bounds):
     yield 'baseline', {'cuts': bounds}           # exactly one PDU per segment
     yield 'at-once', {}                           # everything the peer writes in one go arrives as one segment
     yield 'dribble', {'dribble': True}
+    # the peer closes right behind its last write: the close is readable as soon as the last byte is
+    yield 'baseline+close', {'cuts': bounds, 'eager_fin': True}
+    yield 'at-once+close', {'eager_fin': True}
+    yield 'dribble+close', {'dribble': True, 'eager_fin': True}
+    for c in range(1, total, 7):
+        yield 'cut@%d+close' % c, {'cuts': (c,), 'eager_fin': True}
     for c in range(1, total):
         yield 'cut@%d' % c, {'cuts': (c,)}
     if tier == 'thorough':
@@ -77,7 +83,7 @@ def main(tier='quick'):
             base = None
             for waiting in ((False, True) if not req else (False,)):
                 for label, kw in schedules(total, tier, rng, ulcorpus.pdu_boundaries(sc)):
-                    if tier == 'quick' and waiting and label.startswith('cut@') and int(label[4:]) % 3:
+                    if tier == 'quick' and waiting and label.startswith('cut@') and '+' not in label and int(label[4:]) % 3:
                         continue
                     p = ulcorpus.play(sc, req, waiting=waiting, **kw)
                     obs = observable(p)
